@@ -19,7 +19,7 @@
    The numerical prediction (clustering lookup, binning, scaling, ElasticNet product, DST repair) is NOT modelled:
    it is a function of the fields collected in [hourly_inputs] (a Section variable in the proofs).
    Executable definitions only. *)
-From Coq Require Import ZArith List Bool String PrimFloat.
+From Coq Require Import ZArith List Bool String Ascii PrimFloat.
 From V Require Import Model.Json Model.DailyDoc.
 Import ListNotations.
 Open Scope string_scope.
@@ -49,7 +49,25 @@ Record hourly_state := {
 Definition jfloats (l : list float) : json := JArr (map JNum l).
 Definition jstrings (l : list string) : json := JArr (map JStr l).
 
-(* for i, key in enumerate(self._ts_features): feature_scaler[key] = [loc[i], scale[i]]   (IndexError if short) *)
+(* SerializeModel inherits the BaseSettings config str_to_lower / str_strip_whitespace: every value pydantic validates
+   as a `str` is stripped and lower-cased when the document is built.  That touches the KEYS of
+   feature_scaler : Dict[str, list[float]] (harmless: from_dict reads that dictionary positionally) and nothing else:
+   ts_features / categorical_features are untyped lists whose elements pass through verbatim. *)
+Definition lower_char (c : ascii) : ascii :=
+  let n := nat_of_ascii c in if (Nat.leb 65 n && Nat.leb n 90)%bool then ascii_of_nat (n + 32) else c.
+Fixpoint lower (s : string) : string :=
+  match s with EmptyString => EmptyString | String c r => String (lower_char c) (lower r) end.
+Definition is_space (c : ascii) : bool :=
+  let n := nat_of_ascii c in Nat.eqb n 32 || (Nat.leb 9 n && Nat.leb n 13).
+Fixpoint lstrip (s : string) : string :=
+  match s with EmptyString => EmptyString | String c r => if is_space c then lstrip r else s end.
+Fixpoint srev (s acc : string) : string :=
+  match s with EmptyString => acc | String c r => srev r (String c acc) end.
+Definition strip (s : string) : string := srev (lstrip (srev (lstrip s) "")) "".
+Definition str_config (s : string) : string := lower (strip s).
+
+(* for i, key in enumerate(self._ts_features): feature_scaler[key] = [loc[i], scale[i]]   (IndexError if short);
+   the keys as the document shows them went through [str_config] *)
 Fixpoint scaler_doc (ts : list string) (loc scale : list float) : option (list (string * json)) :=
   match ts with
   | [] => Some []
@@ -57,7 +75,7 @@ Fixpoint scaler_doc (ts : list string) (loc scale : list float) : option (list (
       match loc, scale with
       | a :: loc', b :: scale' =>
           match scaler_doc ts' loc' scale' with
-          | Some r => Some ((k, JArr [JNum a; JNum b]) :: r)
+          | Some r => Some ((str_config k, JArr [JNum a; JNum b]) :: r)
           | None => None
           end
       | _, _ => None
@@ -93,6 +111,16 @@ Definition hourly_to_doc (s : hourly_state) : option json :=
                        ("baseline_timezone", JStr (hs_tz s));
                        ("version", JStr (hs_version s))])])
   end.
+
+(* regression witness model (seeded change C01-4): a writer whose ts_features / categorical_features are typed
+   list[str], so that the feature NAMES go through [str_config] as well *)
+Definition with_names (f : string -> string) (s : hourly_state) : hourly_state :=
+  {| hs_settings := hs_settings s; hs_clusters := hs_clusters s; hs_bin_edges := hs_bin_edges s;
+     hs_edge_coeffs := hs_edge_coeffs s; hs_ts_features := map f (hs_ts_features s);
+     hs_cat_features := map f (hs_cat_features s); hs_loc := hs_loc s; hs_scale := hs_scale s; hs_y := hs_y s;
+     hs_coef := hs_coef s; hs_intercept := hs_intercept s; hs_metrics := hs_metrics s; hs_warnings := hs_warnings s;
+     hs_dq := hs_dq s; hs_error := hs_error s; hs_tz := hs_tz s; hs_version := hs_version s |}.
+Definition hourly_to_doc_lowercasing (s : hourly_state) : option json := hourly_to_doc (with_names str_config s).
 
 (* ---------------------------------------------------------------- settings re-validation *)
 
